@@ -631,11 +631,14 @@ pub fn case_invalid(line: &str) -> Vec<Finding> {
             }
             out
         }
+        (Err(e), _) if e.starts_with("panic:") => vec![finding("invalid:panic", format!("{:?} aborted the connection task: {}", line, e))],
         (a, b) => vec![finding("invalid:machinery", format!("{:?}: {:?} / {:?}", line, a.err(), b.err()))],
     }
 }
 
-const INVALID_CASES: [&str; 18] = [
+const INVALID_CASES: [&str; 27] = [
+    // an empty channel name, alone or as an element of a list
+    "PART #c, :bye", "JOIN #a,,#b", "JOIN :", "NAMES #c,", "TOPIC :", "KICK : bob", "MODE : +n", "INVITE bob :", "PART ,#c",
     "MODE #c nt", "MODE #c o bob", "MODE #c v bob", "MODE #c b", "MODE #c l", "MODE #c =n", "MODE ann w", "MODE ann i", "MODE ann =w",
     "mode #c nt", "MODE #c +l abc", "MODE #c +l -1", "JOIN c", "JOIN c,#d", "PART c", "TOPIC c :x", "KICK c bob", "INVITE bob c",
 ];
